@@ -55,15 +55,11 @@ Definition end_header (m : str) (numbered : bool) (title : str) := w (R """" ++ 
 Definition end_item_list := wo (R ".LIST OFF" ++ NLs ++ R ".PP" ++ NLs).
 Definition end_markup_block (tag punct : str) (s : st) : st :=
   let s1 := match assoc tag (mtags s) with Some m => w (mt_end m) s | None => s end in
-  match fontstack s1 with
-  | [] => set_panic "mom EndMarkupBlock: fontstack[:len-1]" s1
-  | fs =>
-    let fs' := removelast fs in
-    let cmd := match rev fs' with [] => R "R" | c :: _ => c end in
-    let s2 := s1 <| fontstack := fs' |> in
-    let s3 := if str_eqb (macro s2) (R "Em") && (str_eqb (prev s2) (R "Lk") || str_eqb (prev s2) (R "Sx")) then w NLs s2 else s2 in
-    w (R "\f[" ++ cmd ++ R "]" ++ punct) s3
-  end.
+  let fs' := removelast (fontstack s1) in
+  let cmd := match rev fs' with [] => R "R" | c :: _ => c end in
+  let s2 := s1 <| fontstack := fs' |> in
+  let s3 := if str_eqb (macro s2) (R "Em") && (str_eqb (prev s2) (R "Lk") || str_eqb (prev s2) (R "Sx")) then w NLs s2 else s2 in
+  w (R "\f[" ++ cmd ++ R "]" ++ punct) s3.
 Definition end_paragraph (b : pbreak) (s : st) : st :=
   match b with
   | PForced => if xverse s then w (NLs ++ NLs) s else s
